@@ -33,8 +33,12 @@ C12 == (~X.stopped) => (Ended /\ Delivered)
 \* given every block the wrapped reader produced
 C13 == /\ FileOK /\ X.judged = Len(X.stream) /\ X.joined_ok /\ X.regfiles_ok
 C14 == X.stopped => (Ended /\ Delivered /\ FileOK /\ X.joined_ok)
+\* X03: log = sequence of <<who, id, line_ok>>; loggers = observers that write log lines (region saver, player, command)
+LogPairs == [k \in 1..Len(X.log) |-> <<X.log[k][1], X.log[k][2]>>]
+X03 == X.haslog => (/\ \A k \in 1..Len(X.log) : X.log[k][3] = 1
+                    /\ LogOK(LogPairs, N, X.processed, {X.loggers[k] : k \in 1..Len(X.loggers)}))
 Bit(b) == IF b THEN 0 ELSE 1
-Mon == TLCSet(i, 1 + Bit(C12) + 2 * Bit(C13) + 4 * Bit(C14))
+Mon == TLCSet(i, 1 + Bit(C12) + 2 * Bit(C13) + 4 * Bit(C14) + 8 * Bit(X03))
 ASSUME \A t \in 1..Len(Runs) : TLCSet(t, 0)
 Post == \A t \in 1..Len(Runs) : PrintT(ToJson(<<"TRACE", t, TLCGet(t), 1>>))
 =============================================================================
